@@ -4,12 +4,21 @@
     Hypotheses (stated in every theorem that needs them):
     - [wf_blocked]: the erc20 module account is a blocked address (app.go: every module
       account is; the harness checks it on the real app).  It is part of [state_inv].
-    - [origin_ok_op]: no message, Ethereum transaction or bank send originates from the
-      module address (nobody holds its key), and the deployer of an external contract does
-      not apply its BURNER_ROLE (burnCoins — not a standard ERC-20 function) to the tokens
-      escrowed by the module.
+    - [origin_ok_op]: no message, Ethereum transaction, call inside a transaction or bank
+      send originates from the module address (nobody holds its key), and the deployer of an
+      external contract does not apply its BURNER_ROLE (burnCoins — not a standard ERC-20
+      function) to the tokens escrowed by the module.
     - [from_not_blocked_op] (only for the "equal except self-destroyed" clause): no Transfer
-      event to the module names a blocked address as sender. *)
+      event to the module names a blocked address as sender.
+
+    Histories ([list op]) contain, besides the operations on one pair, whole Ethereum
+    transactions [EvmTx legs] whose receipt carries an ARBITRARY list of logs, of several
+    registered contracts and of unregistered ones, from externally owned accounts and from
+    contract accounts alike: all calls are executed, then PostTxProcessing walks over all
+    logs in order.  [C03_backing_step], [C03_backing_history], [C03_backed_after_history],
+    [C03_ledger_history], [C03_stuck_zero] and [C03_escrow_equals_total_plus_selfburned]
+    quantify over them (induction over the list of logs inside, induction over the history
+    outside). *)
 From Coq Require Import ZArith NArith List Bool.
 From Canto Require Import Model.Erc20 Proofs.Erc20Proofs.
 Import ListNotations.
@@ -35,6 +44,28 @@ Theorem C03_frame : forall s p po s',
   en_mod s' = en_mod s /\ en_hook s' = en_hook s /\ blocked s' = blocked s /\
   forall q, q <> p -> pairs s' q = pairs s q.
 Proof. exact exec_frame. Qed.
+
+(* one Ethereum transaction with any number of logs.  Between the execution of the calls and
+   the hook an external pair is AHEAD of its invariant by the tokens the module has already
+   received ([credits]); every iteration of the hook's loop uses up the credit of its own log
+   and of no other, so no log is converted twice and none is paid out without its tokens *)
+Theorem C03_hook_iteration : forall m h bl ps from to amt c,
+  wf_blocked bl -> pair_inv_c ps (c + to_mod_amt to amt) ->
+  pair_inv_c (hook m h bl ps from to amt) c.
+Proof. exact hook_inv_c. Qed.
+Theorem C03_hook_loop : forall m h bl ls f (c : Z -> Z),
+  wf_blocked bl -> (forall q, pair_inv_c (f q) (c q + credits q ls)) ->
+  forall q, pair_inv_c (hooks_run m h bl f ls q) (c q).
+Proof. exact hooks_run_inv. Qed.
+Theorem C03_backing_tx : forall s legs s',
+  Forall leg_origin_ok legs -> state_inv s ->
+  exec s (EvmTx legs) = Some s' -> state_inv s'.
+Proof. exact exec_tx_inv. Qed.
+(* a multi-log transaction is never counted as tokens destroyed by their holders *)
+Theorem C03_tx_selfburned : forall s legs s',
+  exec s (EvmTx legs) = Some s' ->
+  forall q, p_selfburned (pairs s' q) = p_selfburned (pairs s q).
+Proof. exact exec_tx_selfburned. Qed.
 
 (* every delivered operation (failed ones leave the state unchanged) preserves the invariant
    of every pair *)
@@ -100,6 +131,17 @@ Example C03_example_history :
   (p_supply (pairs s 1), p_tbal (pairs s 1) MOD) = (63, 70) /\
   p_enabled (pairs s 0) = false.
 Proof. split; [exact ex_history_origin|exact ex_history_result]. Qed.
+(* transactions with several logs: two transfers to the module by a contract account in one
+   transaction, mixed with a holder-to-holder transfer, an approval, a foreign log and another
+   holder's transfer; on the external pair a zero amount, a blocked sender in the middle and a
+   further log after it; a reverting transaction *)
+Example C03_example_multi_log :
+  Forall origin_ok_op ex_tx_history /\
+  let s := run ex_tx_history ex_state in
+  (escrow (pairs s 0), p_total (pairs s 0), p_cbal (pairs s 0) 7%N, p_cbal (pairs s 0) 3%N,
+   p_tbal (pairs s 0) 7%N, p_tbal (pairs s 0) MOD) = (38, 38, 11, 1, 9, 0) /\
+  (p_supply (pairs s 1), p_tbal (pairs s 1) MOD, escrow (pairs s 1), p_cbal (pairs s 1) 2%N) = (25, 25, 2, 13).
+Proof. split; [exact ex_tx_history_origin|exact ex_tx_history_result]. Qed.
 (* the hypothesis on origins is necessary *)
 Example C03_origin_needed :
   let s' := deliver ex_state (OnPair 0 (ConvertCoin MOD 2%N 40)) in
@@ -109,6 +151,10 @@ Proof. exact ex_origin_needed. Qed.
 Print Assumptions C03_monitor_is_backing.
 Print Assumptions C03_backing_pair_step.
 Print Assumptions C03_frame.
+Print Assumptions C03_hook_iteration.
+Print Assumptions C03_hook_loop.
+Print Assumptions C03_backing_tx.
+Print Assumptions C03_tx_selfburned.
 Print Assumptions C03_backing_step.
 Print Assumptions C03_backing_history.
 Print Assumptions C03_backed_after_history.
